@@ -265,7 +265,7 @@ def kwargs_replay(ctx):
         tlc.cleanup(res.workdir)
         return
     V = {'color': 'blue', 'linewidth': 3.0, 'symsize': 7.0, 'fontsize': 17.0, 'textangle': 40.0}
-    C = {'edgecolor': 'red', 'linewidth': 5.0, 'markeredgecolor': 'red', 'markersize': 13.0, 'color': 'red', 'size': 23.0, 'rotation': 75.0}
+    C = {'edgecolor': 'red', 'linewidth': 5.0, 'markeredgecolor': 'red', 'markersize': 13.0, 'color': 'red', 'size': 23.0, 'rotation': 75.0, 'fontsize': 23.0}
     from matplotlib.colors import to_rgba
     n = 0
     for st in parse_dump(res.dump_path, only='pc = "ret"'):
@@ -293,7 +293,12 @@ def kwargs_replay(ctx):
                     other = {'Patch': {'edgecolor': 'magenta', 'linewidth': 9.0, 'fill': True}, 'Line2D': {'markeredgecolor': 'magenta', 'markersize': 29.0},
                              'Text': {'color': 'magenta', 'size': 31.0, 'rotation': 5.0}}[art]
                     reg.as_artist(**other)
-                a = reg.as_artist(**caller)
+                try:
+                    a = reg.as_artist(**caller)
+                except Exception as ex:  # noqa
+                    ctx.violation(f'C18|kwargs|{art}|{rname}|raises|{type(ex).__name__}', f'{rname} artist: as_artist(**{caller}) with stored visual {vis} raised {ex!r}',
+                                  {'artist': art, 'region': rname, 'style': style, 'visual': vis, 'caller': caller})
+                    continue
             ctx.case(('kwargs', rname, style, tuple(sorted(vis)), tuple(sorted(caller))), True)
             getters = {'edgecolor': 'get_edgecolor', 'linewidth': 'get_linewidth', 'markeredgecolor': 'get_markeredgecolor', 'markersize': 'get_markersize',
                        'color': 'get_color', 'size': 'get_fontsize', 'rotation': 'get_rotation'}
